@@ -56,6 +56,9 @@ READ_SPEC = {
     ("extxyz", "atcoords"): {A: 1},
     ("extxyz", "cellvecs"): {A: 1},
     ("extxyz", "atmasses"): {AMU: 1},
+    # the module cites the ASE conventions: energies in eV, forces in eV/angstrom
+    ("extxyz", "energy"): {EV: 1},
+    ("extxyz", "atgradient"): {EV: 1, A: -1},
     ("pdb", "atcoords"): {A: 1},
     ("mol2", "atcoords"): {A: 1},
     ("sdf", "atcoords"): {A: 1},
@@ -136,7 +139,7 @@ def measured(report, side, fmt, attr, unit):
 def run(chk):
     chk.functions += ["load_one of the format modules and their helpers (executed, unit constants as indeterminates)", "dump_one of the 13 writers + inputs.*.default_atom_line (executed)"]
     chk.trusted += ["linearity: the loaded value is a monomial in the module's unit constants times the file number (observed: the exponent is the same integer on every element, else the obligation fails as `mixed`)", "CODATA values typed into checks/c04.py", "standard atomic weights of a few elements (for the absolute mass probe)"]
-    chk.assumptions += ["per corpus path: a reader branch that no corpus file reaches is not covered (site coverage U3 reports unexercised unit-constant sites)", "extended-XYZ energy and forces pass through unconverted (documented exception)"]
+    chk.assumptions += ["per corpus path: a reader branch that no corpus file reaches is not covered (site coverage U3 reports unexercised unit-constant sites)"]
     led = chk.ledger
     rep = run_probe(chk)
     if rep is None:
